@@ -102,6 +102,32 @@ fn write_u64s(path: &str, xs: impl Iterator<Item = u64>) {
     let _ = std::fs::write(path, buf);
 }
 
+/// Watchdog: a real lock taken behind the shims' back (or any other stall)
+/// would hang the baton for ever. No progress for 60 s = harness error.
+fn start_watchdog() -> std::sync::Arc<std::sync::atomic::AtomicU64> {
+    let progress = std::sync::Arc::new(std::sync::atomic::AtomicU64::new(0));
+    let p2 = progress.clone();
+    std::thread::spawn(move || {
+        let mut last = (0u64, 0u64);
+        let mut idle = 0;
+        loop {
+            std::thread::sleep(std::time::Duration::from_secs(1));
+            let now = (p2.load(std::sync::atomic::Ordering::SeqCst), simenv::sim().steps_so_far());
+            if now == last {
+                idle += 1;
+            } else {
+                idle = 0;
+                last = now;
+            }
+            if idle >= 60 {
+                println!("HARNESS-ERROR stalled for 60 s (run counter {})", now.0);
+                std::process::exit(2);
+            }
+        }
+    });
+    progress
+}
+
 /// Runs `count` seeds and writes the aggregate to `out` (+ side files).
 fn worker(args: &[String]) -> i32 {
     let prop = arg(args, "--prop").expect("--prop");
@@ -117,30 +143,7 @@ fn worker(args: &[String]) -> i32 {
     let _ = simenv::sim();
     let known = KnownFindings::load();
 
-    // watchdog: a real lock taken behind the shim's back would stall the baton
-    let progress = std::sync::Arc::new(std::sync::atomic::AtomicU64::new(0));
-    {
-        let progress = progress.clone();
-        std::thread::spawn(move || {
-            let mut last = (0u64, 0u64);
-            let mut idle = 0;
-            loop {
-                std::thread::sleep(std::time::Duration::from_secs(1));
-                let now = (progress.load(std::sync::atomic::Ordering::SeqCst), simenv::sim().steps_so_far());
-                if now == last {
-                    idle += 1;
-                } else {
-                    idle = 0;
-                    last = now;
-                }
-                if idle >= 60 {
-                    println!("HARNESS-ERROR worker stalled for 60 s (prop run index near {})", now.0);
-                    std::process::exit(2);
-                }
-            }
-        });
-    }
-
+    let progress = start_watchdog();
     let t0 = std::time::Instant::now();
     let mut runs = 0u64;
     let mut nontrivial_fps: BTreeSet<u64> = BTreeSet::new();
@@ -205,7 +208,7 @@ fn worker(args: &[String]) -> i32 {
             }
             unlisted += 1;
             if violations.len() < max_viol {
-                let sh = shrink::shrink(&plan, rep.schedule.clone(), v, 300);
+                let sh = shrink::shrink(&plan, rep.schedule.clone(), v, 500);
                 let name = format!("{}-{}-{}-{}.json", prop, profile_name(), seed, index);
                 let path = format!("{VERIF_DIR}/replays/{name}");
                 let _ = std::fs::create_dir_all(format!("{VERIF_DIR}/replays"));
@@ -265,6 +268,7 @@ fn replay(args: &[String]) -> i32 {
             return 2;
         }
     };
+    let _wd = start_watchdog();
     let doc: Value = serde_json::from_str(&text).expect("replay file is JSON");
     let plan = plan::plan_from_json(&doc["plan"]);
     if let Some(p) = doc["profile"].as_str() {
@@ -316,12 +320,14 @@ fn fingerprints(args: &[String]) -> i32 {
     let thorough = arg(args, "--tier").map(|t| t == "thorough").unwrap_or(false);
     ops::install_panic_hook();
     let _ = simenv::sim();
+    let progress = start_watchdog();
     let stdout = std::io::stdout();
     let mut o = stdout.lock();
     for index in start..start + count {
         let rs = run_seed(seed, &prop, index);
         let plan = props::generate(&prop, rs, thorough);
         let rep = props::run_plan(&plan, false);
+        progress.fetch_add(1, std::sync::atomic::Ordering::SeqCst);
         let _ = writeln!(
             o,
             "{index} {:016x} {} {}",
